@@ -10,6 +10,9 @@ import (
 	dtpb "github.com/google/fhir/go/proto/google/fhir/proto/r4/core/datatypes_go_proto"
 	bcrpb "github.com/google/fhir/go/proto/google/fhir/proto/r4/core/resources/bundle_and_contained_resource_go_proto"
 	ppb "github.com/google/fhir/go/proto/google/fhir/proto/r4/core/resources/patient_go_proto"
+	qpb "github.com/google/fhir/go/proto/google/fhir/proto/r4/core/resources/questionnaire_go_proto"
+	"github.com/verily-src/fhirpath-go/fhirpath/compopts"
+	"github.com/verily-src/fhirpath-go/fhirpath/system"
 	"github.com/verily-src/fhirpath-go/fhirpath/patch"
 	"github.com/verily-src/fhirpath-go/fhirpath/verifharness/core"
 	"github.com/verily-src/fhirpath-go/fhirpath/verifharness/fx"
@@ -30,7 +33,7 @@ func init() {
 		Assumptions: []string{"an error on an operation the model considers valid is not a violation (the statement constrains successes and failures, not which calls succeed); every (operation, path form) pair must have been observed to succeed at least once",
 			"sibling-type values (code for an enum-bound code, integer for positiveInt, id for a reference) may be normalised by the library: on success only the frame (everything but the target) and non-emptiness of the target are checked"},
 		Run:    runC18,
-		Checks: map[string]func(*core.Env, []json.RawMessage){"patch": replayC18, "seq": replayC18Seq, "codes": replayC18Codes, "aliasing": replayC18Aliasing, "refadd": func(env *core.Env, a []json.RawMessage) { c18RefAdd(env) }, "choice": func(env *core.Env, a []json.RawMessage) {
+		Checks: map[string]func(*core.Env, []json.RawMessage){"patch": replayC18, "seq": replayC18Seq, "codes": replayC18Codes, "aliasing": replayC18Aliasing, "refadd": func(env *core.Env, a []json.RawMessage) { c18RefAdd(env) }, "optrange": func(env *core.Env, a []json.RawMessage) { c18OptionsAndRanges(env) }, "choice": func(env *core.Env, a []json.RawMessage) {
 			var tn string
 			json.Unmarshal(a[0], &tn)
 			c18ChoiceMembers(env, tn)
@@ -1219,6 +1222,98 @@ func c18ChoiceMembers(env *core.Env, tn string) {
 	}
 }
 
+// c18OptionsAndRanges: (a) the compile options of a call are that call's: one path text used with two different
+// custom functions selects two different elements; (b) an unsigned value that an integer element cannot hold is
+// refused or stored exactly, never wrapped.
+func c18OptionsAndRanges(env *core.Env) {
+	defer env.In("optrange")()
+	env.Case()
+	env.Cover("options-and-ranges")
+	pick := func(i int) func(in system.Collection) (system.Collection, error) {
+		return func(in system.Collection) (system.Collection, error) {
+			if i < len(in) {
+				return system.Collection{in[i]}, nil
+			}
+			return system.Collection{}, nil
+		}
+	}
+	mkp := func() *ppb.Patient {
+		return &ppb.Patient{Name: []*dtpb.HumanName{{Given: []*dtpb.String{{Value: "g0"}, {Value: "g1"}, {Value: "g2"}}}}}
+	}
+	for round := 0; round < 2; round++ {
+		for _, i := range []int{0, 2, 1, 0} {
+			for _, op := range []string{"delete", "replace"} {
+				p := mkp()
+				var perr error
+				out := env.Guard("patch with custom function", func() {
+					if op == "delete" {
+						perr = patch.Delete(p, "Patient.name[0].given.nth()", compopts.AddFunction("nth", pick(i)))
+					} else {
+						perr = patch.Replace(p, "Patient.name[0].given.nth()", &dtpb.String{Value: "new"}, compopts.AddFunction("nth", pick(i)))
+					}
+				})
+				env.Eval(1)
+				if out.Panicked || out.Dead {
+					if !out.Dead {
+						env.Violatef("C18/panic@"+out.Site+"/"+core.NormMsg(out.PanicMsg), "patch.%s with a custom function panicked: %s", op, out.PanicMsg)
+					}
+					continue
+				}
+				want := mkp()
+				if perr == nil {
+					if op == "delete" {
+						want.Name[0].Given = append(want.Name[0].Given[:i:i], want.Name[0].Given[i+1:]...)
+					} else {
+						want.Name[0].Given[i] = &dtpb.String{Value: "new"}
+					}
+				}
+				if !proto.Equal(p, want) {
+					env.Violatef("C18/options/"+op+"/wrong-element", "patch.%s(`Patient.name[0].given.nth()`) with nth = item %d returned %v; expected %s, observed %s", op, i, perr, trunc(jsonOf(want), 200), trunc(jsonOf(p), 200))
+				}
+			}
+		}
+	}
+	// (b)
+	for _, v := range []uint32{0, 7, 2147483647, 2147483648, 4294967295, 3000000000} {
+		for _, mk := range []func() fhir.Base{func() fhir.Base { return &dtpb.UnsignedInt{Value: v} }, func() fhir.Base { return &dtpb.PositiveInt{Value: v} }} {
+			val := mk()
+			if _, isPos := val.(*dtpb.PositiveInt); isPos && v == 0 {
+				continue
+			}
+			q := &qpb.Questionnaire{Item: []*qpb.Questionnaire_Item{{LinkId: &dtpb.String{Value: "i1"}, MaxLength: &dtpb.Integer{Value: 5}}, {LinkId: &dtpb.String{Value: "i2"}}}}
+			for _, op := range []string{"replace", "add"} {
+				r := proto.Clone(q).(*qpb.Questionnaire)
+				before := protoBytes(r)
+				var perr error
+				out := env.Guard("patch integer element with unsigned value", func() {
+					if op == "replace" {
+						perr = patch.Replace(r, "Questionnaire.item[0].maxLength", val)
+					} else {
+						perr = patch.Add(r, "Questionnaire.item[1]", "maxLength", val, &patch.Options{})
+					}
+				})
+				env.Eval(1)
+				if out.Panicked || out.Dead {
+					if !out.Dead {
+						env.Violatef("C18/panic@"+out.Site+"/"+core.NormMsg(out.PanicMsg), "patch.%s of an integer element with %T(%d) panicked: %s", op, val, v, out.PanicMsg)
+					}
+					continue
+				}
+				if perr != nil {
+					if protoBytes(r) != before {
+						env.Violatef("C18/integer-range/error-but-mutated", "patch.%s maxLength := %T(%d) returned %v but the resource changed", op, val, v, perr)
+					}
+					continue
+				}
+				idx := map[string]int{"replace": 0, "add": 1}[op]
+				if got := r.Item[idx].GetMaxLength(); got == nil || int64(got.GetValue()) != int64(v) {
+					env.Violatef("C18/integer-range/wrong-value-stored", "patch.%s maxLength := %T(%d) returned nil; the element now holds %v", op, val, v, got)
+				}
+			}
+		}
+	}
+}
+
 // c18Aliasing: the value handed to the operation, or a message shared by two elements, is the same Go object as
 // something already in the resource. Only the targeted element changes; the supplied value is not modified.
 func c18Aliasing(env *core.Env) {
@@ -1566,6 +1661,10 @@ func runC18(env *core.Env) {
 	n++
 	if env.Mine(n) {
 		c18RefAdd(env)
+	}
+	n++
+	if env.Mine(n) {
+		c18OptionsAndRanges(env)
 	}
 	for _, md := range gen.ResourceTypes() {
 		n++
